@@ -7,6 +7,10 @@ import tempfile
 
 from sfv.framework import Ctx, Property
 from sfv.rt import wfcheck, wfgen
+from sfv.translate import provguards
+
+
+KNOWN_POSITIONAL = "job-pipeline-pairs-jobs-with-inputs-by-position:input-ports-deliver-tags-in-different-orders"
 
 
 def oracle(spec: dict, res: dict, failing: bool):
@@ -30,6 +34,7 @@ def oracle(spec: dict, res: dict, failing: bool):
         yield key, f"missing {missing[:6]} extra {extra[:6]} (edges are dependee>depender as port:tag)"
     # job pipelines: the output token of every job is linked to the job token and to one token per input
     tok = {t[0]: t for t in res["db"]["tokens"]}
+    pid2idx = {pid: int(i) for i, pid in res["port_ids"].items() if pid is not None}
     deps: dict[int, list[int]] = {}
     for a, b in res["db"]["provenance"]:
         deps.setdefault(b, []).append(a)
@@ -37,35 +42,73 @@ def oracle(spec: dict, res: dict, failing: bool):
         if n["kind"] != "exec":
             continue
         out = n["outs"][0]
+        jports: set = set()
         for tag, tid in res["token_ids"].get(str(out), {}).items():
             d = deps.get(tid, [])
             types = sorted(tok[x][3] for x in d if x in tok)
             if types.count("JobToken") != 1 or len(d) != len(n["ins"]) + 1:
                 yield "job-output-not-linked-to-job-token-and-inputs", f"exec node {n['id']} output {tag}: dependee types {types}, {len(n['ins'])} inputs"
             else:
-                # ... to ITS job token and to the inputs of THAT job: every dependee carries the tag of the job
+                show = lambda ids: sorted((str(pid2idx.get(tok[x][1], "?")), tok[x][2], tok[x][3]) for x in ids if x in tok)
+                jid = next(x for x in d if tok[x][3] == "JobToken")
+                jtag = tok[jid][2]
+                jports.add(tok[jid][1])
+                # (2) the output of tag t is linked to the job token OF TAG t and to inputs of tag t; every transferred input to
+                # the job token of its tag and to its source token
                 wrong = sorted((tok[x][3], tok[x][2]) for x in d if x in tok and tok[x][2] != tag)
-                if wrong:
-                    yield "job-output-linked-to-another-job-or-other-inputs", (
-                        f"exec node {n['id']} output {tag} depends on tokens with other tags: {wrong[:4]} (type, tag)")
+                want_in = {res["token_ids"].get(str(q), {}).get(tag) for q in n["ins"]}
+                bad_tr = []
+                for x in d:
+                    if x != jid and x in tok:
+                        dx = set(deps.get(x, []))
+                        jx = [y for y in dx if y in tok and tok[y][3] == "JobToken"]
+                        if not (len(jx) == 1 and tok[jx[0]][2] == tok[x][2] and len(dx & want_in) == 1 and len(dx) == 2):
+                            bad_tr.append((x, tok[x][2], sorted((tok[y][3], tok[y][2]) for y in dx if y in tok)))
+                if wrong or bad_tr:
+                    detail = (f"exec node {n['id']} output {tag} depends on tokens with other tags: {wrong[:4]} (type, tag); transferred "
+                              f"inputs linked to another job: {bad_tr[:3]}; arrival orders of the input ports: "
+                              f"{ {q: res['order'].get(str(q)) for q in n['ins']} }")
+                    orders = [res["order"].get(str(q)) for q in n["ins"]]
+                    if len(n["ins"]) >= 2 and any(o != orders[0] for o in orders):
+                        # narrow classification of one known defect: the transfer / execute steps pair the r-th job token with
+                        # the r-th token of their input port (by position, not by tag)
+                        yield KNOWN_POSITIONAL, detail
+                    else:
+                        yield "job-output-linked-to-another-job-or-other-inputs", detail
+        # (1) token-exact, by the JOB TOKEN'S OWN tag: the ScheduleStep links the job token of tag t to exactly the token tagged t
+        # on every input port of the pipeline (plus the connector token of the deployment, on an internal port, left out);
+        # ALL job tokens on the pipeline's job port, also those no output refers to
+        for jid, (_, jp, jtag, jtype) in sorted(tok.items()):
+            if jtype == "JobToken" and jp in jports:
+                want_j = {res["token_ids"].get(str(q), {}).get(jtag) for q in n["ins"]}
+                have_j = {x for x in deps.get(jid, []) if x in tok and tok[x][1] in pid2idx}
+                if None not in want_j and have_j != want_j:
+                    show = lambda ids: sorted((str(pid2idx.get(tok[x][1], "?")), tok[x][2], tok[x][3]) for x in ids if x in tok)
+                    yield "job-token-not-linked-to-the-inputs-of-its-tag", (
+                        f"exec node {n['id']}: job token {jtag} depends on (port, tag) {show(have_j)}, the inputs of that tag are {show(want_j)}")
 
 
 class C07(Property):
     pid = "C07"
     title = "Recorded provenance is complete and acyclic"
-    lean_targets = ["SFV.Model.Exec", "SFV.Model.TfMachine", "SFV.Model.LoopComb", "SFV.Gen.StepGuards", "SFV.Props.C07", "SFV.Props.C07Net"]
-    props_files = ["SFV/Props/C07.lean", "SFV/Props/C07Net.lean"]
+    lean_targets = ["SFV.Model.Exec", "SFV.Model.TfMachine", "SFV.Model.LoopComb", "SFV.Model.LoopNet", "SFV.Gen.StepGuards", "SFV.Props.C07", "SFV.Props.C07Net", "SFV.Props.C07Guards"]
+    props_files = ["SFV/Props/C07.lean", "SFV/Props/C07Net.lean", "SFV/Props/C07Guards.lean"]
     drivers = ["Drivers/Net.lean"]
-    translators = []
+    translators = [provguards.generate]
     rule = ("the token and provenance tables of the SQLite database are dumped after every run of random well-formed DAG workflows "
             "(sfv.rt.wfgen, real step classes incl. job pipelines) under the default order and 1 (quick) / 3 (thorough) PRNG interleavings; "
             "one third of the workflows with an injected transformer failure (table-level checks only). Checked per run: dependee id < "
             "depender id on every row, no dangling id, no cycle (DFS), every data token of every port persisted, the edge set (tokens "
-            "identified by port:tag) equal to what the property demands (oracle) and to the Lean model `prov` (driver); job outputs linked "
-            "to their job token and inputs. Non-trivial = workflow whose run records >= 4 provenance rows.")
+            "identified by port:tag) equal to what the property demands (oracle) and to the Lean model `prov` (driver); job pipelines by "
+            "token id: every JobToken depends on exactly the tokens of its own tag on the pipeline's input ports, every job output / "
+            "transferred input on the JobToken of its tag (corpus incl. 2-input pipelines whose ports deliver tags in different orders). Additionally 3 (quick) / 12 (thorough) RECOVERY cases of the recovery harness (sfv.rt.recov: "
+            "failed jobs retried through recovery workflows): table-level clauses on the whole database. Non-trivial = workflow whose "
+            "run records >= 4 provenance rows.")
     trusted_base = [
         "hand-written model lean/SFV/Model/Net.lean `nodeProv` (which inputs each step class passes to _persist_token) compared with the "
         "real provenance table on every run; persistence log model lean/SFV/Model/Prov.lean",
+        "translator harness/sfv/translate/provguards.py (row orientation of add_provenance, save-before-provenance and the None check "
+        "of _persist_token -> SFV/Gen/ProvGuards.lean)",
         "modelled, not verified: SQLite INTEGER PRIMARY KEY ids are larger than every id in use (rows are never deleted here); "
         "aiosqlite executes statements in order",
         "job pipelines: edges through the internal schedule/transfer ports are checked generically (ids, acyclicity, job token + inputs), "
@@ -77,7 +120,8 @@ class C07(Property):
                   "step; edge sets compared with the real database on every run; engine layers abstracted as in C04")
     level_note = "Lean kernel, axioms within {propext, Classical.choice, Quot.sound}; tables of the real runs checked directly and against the model"
     assumptions = [
-        "well-formed workflows as generated; no recovery workflows (the recovery harness of C16 is not part of this check)",
+        "well-formed workflows as generated; on recovery workflows only the table-level clauses (ids increase, no dangling id, acyclic) "
+        "are checked, not the exact edge sets",
         "control tokens put directly (TerminationToken, IterationTerminationToken) are not persisted — excluded by the statement",
     ]
     quick_budget_s = 600
@@ -146,6 +190,7 @@ class C07(Property):
             if not failing:
                 lines.append(f"prov {wfcheck.spec_words(spec)}")
                 metas.append((spec, runs))
+        self._recovery_runs(ctx)
         got = ctx.lean("Drivers/Net.lean", lines)
         for g, (spec, runs) in zip(got, metas):
             for r in runs:
@@ -159,8 +204,55 @@ class C07(Property):
                                  {"spec": spec, "failing": False, "seed": r["seed"], "shuffle": r["shuffle"]})
                     break
 
+    def _recovery_runs(self, ctx: Ctx) -> None:
+        """the same table-level clauses on RECOVERY workflows: a6's recovery harness (sfv.rt.recov: pipelines, scatters, loops,
+        diamonds built with the repo's RecoveryTranslator, rollback failure manager, soft and fail-stop failures in the
+        schedule / transfer / execute phases), with the token and provenance tables dumped before the context is closed"""
+        from sfv.props.c16 import plans, shapes
+        from sfv.rt import recovprov
+        from sfv.rt.par import pmap
+
+        if ctx.time_left() < 150:
+            ctx.notes.append("recovery runs skipped: not enough time left")
+            return
+        rng = ctx.rng
+        ncases = 12 if ctx.tier == "thorough" else 3
+        cases = []
+        shs = shapes(rng, True)
+        rng.shuffle(shs)
+        for sh in shs:
+            for pl in plans(rng, sh, True):
+                cases.append({"name": json.dumps(sh, sort_keys=True), "shape": sh, "plan": pl, "max_retries": 6, "timeout": 60})
+        rng.shuffle(cases)
+        cases = cases[:ncases]
+        for case, status, r in pmap(recovprov.run_case_with_db, cases, timeout=150, workers=min(4, len(cases))):
+            db = r.get("db") if isinstance(r, dict) else None
+            if status != "ok" or not db:
+                ctx.notes.append(f"recovery case {case['name']}: no tables ({status}: {str(r)[:200]})")
+                ctx.count("recovery-harness-error")
+                continue
+            retried = any(v > 1 for v in (r.get("attempts") or {}).values())
+            key = ("recovery", case["name"], json.dumps(case["plan"], sort_keys=True)) if len(db["provenance"]) >= 4 else None
+            ctx.case({"recovery_case": {"shape": case["shape"], "plan": case["plan"]}, "outcome": r.get("outcome"), "retried": retried,
+                      "workflows": db["workflows"], "token_rows": len(db["tokens"]), "provenance_rows": len(db["provenance"])},
+                     key, "recovery+" + case["shape"]["kind"])
+            ctx.count("recovery-workflows-in-db", db["workflows"])
+            for kind, detail in recovprov.table_problems(db)[:5]:
+                ctx.fail("recovery:" + {"order": "dependee-id-not-smaller-than-depender-id", "dangling": "provenance-row-with-unknown-token-id",
+                                        "cycle": "provenance-cycle"}[kind], detail,
+                         {"recovery_case": {"shape": case["shape"], "plan": case["plan"], "max_retries": 6}})
+
     def replay(self, ctx: Ctx, data) -> None:
         r = data.get("replay") or data.get("case") or (data.get("no_longer_checks") or [{}])[0].get("case")
+        if r and "recovery_case" in r:
+            from sfv.rt import recovprov
+            res = recovprov.run_case_with_db(dict(r["recovery_case"], timeout=60))
+            print("recovery case:", json.dumps(r["recovery_case"]))
+            print("outcome:", res.get("outcome"), "attempts:", res.get("attempts"))
+            print("provenance:", (res.get("db") or {}).get("provenance"))
+            for kind, detail in recovprov.table_problems(res["db"]) if res.get("db") else []:
+                ctx.fail("recovery:" + kind, detail, r)
+            return
         if not r or "spec" not in r:
             return super().replay(ctx, data)
         spec, failing = r["spec"], r.get("failing", False)
